@@ -184,7 +184,9 @@ pub async fn scenario() {
 													val += 1;
 													wire.push_text(sub_notif("n", &sid, &json!(val)));
 												}
-												wire.push_text(sub_close("n", &sid, &json!("bye")));
+												// the reason of a close notification is any JSON value
+												let reason = rt::pick("close_reason", &[json!("bye"), json!("say \"bye\" \\ and\nleave"), json!({"code": 1, "why": ["x"]}), json!(42), Value::Null]).clone();
+												wire.push_text(sub_close("n", &sid, &reason));
 												live.retain(|s| s != &sid);
 												finished_ids.lock().unwrap().1.push(sid);
 											}
